@@ -43,7 +43,7 @@ theorem inv1_t0 (t0 : ∀ a op g, s.pc a = .take0 op g → finX (s.pc g) = true)
   all_goals (intros; (try simp only [upd_apply, WFJ, DET, NONE, WTJ, untainted] at *); first | grind | grind (splits := 25) | grind (splits := 80) | ((repeat' split) <;> grind (splits := 80)))
 
 set_option maxHeartbeats 4000000 in
-theorem inv1_tv (tv : ∀ a op g v, s.pc a = .take op g v → op ≠ .detach → s.retval g = some v) (st : ∀ g, stored (s.pc g) = true → s.retval g = some (s.res g)) (t0 : ∀ a op g, s.pc a = .take0 op g → finX (s.pc g) = true) (hc : stepCore s e = some s1) : ∀ a op g v, s1.pc a = .take op g v → op ≠ .detach → s1.retval g = some v := by
+theorem inv1_tv (tv : ∀ a op g v, s.pc a = .take op g v → op ≠ .detach → s.retval g = some v) (st : ∀ g, stored (s.pc g) = true → s.retval g = some (s.res g)) (t0 : ∀ a op g, s.pc a = .take0 op g → finX (s.pc g) = true) (wfj : ∀ g, s.det g = WFJ → finX (s.pc g) = true) (hc : stepCore s e = some s1) : ∀ a op g v, s1.pc a = .take op g v → op ≠ .detach → s1.retval g = some v := by
   step_cases e with hc
   all_goals (intros; (try simp only [upd_apply, WFJ, DET, NONE, WTJ, untainted] at *); first | grind | grind (splits := 25) | grind (splits := 80) | ((repeat' split) <;> grind (splits := 80)))
 
@@ -64,6 +64,36 @@ theorem inv1_gv (gv : ∀ g p, s.pc g = .fGave p → s.retval g = some (s.res p)
 
 set_option maxHeartbeats 4000000 in
 theorem inv1_dj (dj : ∀ g, (s.pc g = .fWoken ∨ s.pc g = .fMark ∨ s.pc g = .fDone) → (s.claimed g = true ∨ s.detX g = true)) (detx : ∀ g, s.det g = DET → s.detX g = true) (wfj : ∀ g, s.det g = WFJ → finX (s.pc g) = true) (tcl : ∀ b g, takePh (s.pc b) g = true → (s.claimed g = true ∨ s.detX g = true)) (fc : ∀ g, holdsFAny (s.pc g) = true → s.claimed g = true) (hw : ∀ a op g v p, s.pc a = .wake op g v p → s.holder p = some a ∧ parkedIn (s.pc p) p g = true) (dr : ∀ g, s.det g ≤ 3) (hc : stepCore s e = some s1) : ∀ g, (s1.pc g = .fWoken ∨ s1.pc g = .fMark ∨ s1.pc g = .fDone) → (s1.claimed g = true ∨ s1.detX g = true) := by
+  step_cases e with hc
+  all_goals (intros; (try simp only [upd_apply, WFJ, DET, NONE, WTJ, untainted] at *); first | grind | grind (splits := 25) | grind (splits := 80) | ((repeat' split) <;> grind (splits := 80)))
+
+set_option maxHeartbeats 4000000 in
+theorem inv1_sc (sc : ∀ a, slotFree (s.pc a) = true → s.res a = 0) (hf : (∀ a p, s.pc a = .fGot p → s.holder p = some a ∧ s.pc p = .jParked a) ∧ (∀ a p v, s.pc a = .fGotRes p v → s.holder p = some a ∧ s.pc p = .jParked a) ∧ (∀ a p, s.pc a = .fGave p → s.holder p = some a ∧ s.pc p = .jParked a)) (hc : stepCore s e = some s1) : ∀ a, slotFree (s1.pc a) = true → s1.res a = 0 := by
+  step_cases e with hc
+  all_goals (intros; (try simp only [upd_apply, WFJ, DET, NONE, WTJ, untainted] at *); first | grind | grind (splits := 25) | grind (splits := 80) | ((repeat' split) <;> grind (splits := 80)))
+
+set_option maxHeartbeats 4000000 in
+theorem inv1_jo1 (jo1 : ∀ p t, s.pc p = .jParked t → (s.res p = 0 ∨ s.retval t = some (s.res p))) (sc : ∀ a, slotFree (s.pc a) = true → s.res a = 0) (hf : (∀ a p, s.pc a = .fGot p → s.holder p = some a ∧ s.pc p = .jParked a) ∧ (∀ a p v, s.pc a = .fGotRes p v → s.holder p = some a ∧ s.pc p = .jParked a) ∧ (∀ a p, s.pc a = .fGave p → s.holder p = some a ∧ s.pc p = .jParked a)) (gr : ∀ g p v, s.pc g = .fGotRes p v → s.retval g = some v) (hc : stepCore s e = some s1) : ∀ p t, s1.pc p = .jParked t → (s1.res p = 0 ∨ s1.retval t = some (s1.res p)) := by
+  step_cases e with hc
+  all_goals (intros; (try simp only [upd_apply, WFJ, DET, NONE, WTJ, untainted] at *); first | grind | grind (splits := 25) | grind (splits := 80) | ((repeat' split) <;> grind (splits := 80)))
+
+set_option maxHeartbeats 4000000 in
+theorem inv1_jo2 (jo2 : ∀ p t, s.pc p = .jWoken t → (s.res p = 0 ∨ s.retval t = some (s.res p))) (jo1 : ∀ p t, s.pc p = .jParked t → (s.res p = 0 ∨ s.retval t = some (s.res p))) (hf : (∀ a p, s.pc a = .fGot p → s.holder p = some a ∧ s.pc p = .jParked a) ∧ (∀ a p v, s.pc a = .fGotRes p v → s.holder p = some a ∧ s.pc p = .jParked a) ∧ (∀ a p, s.pc a = .fGave p → s.holder p = some a ∧ s.pc p = .jParked a)) (hc : stepCore s e = some s1) : ∀ p t, s1.pc p = .jWoken t → (s1.res p = 0 ∨ s1.retval t = some (s1.res p)) := by
+  step_cases e with hc
+  all_goals (intros; (try simp only [upd_apply, WFJ, DET, NONE, WTJ, untainted] at *); first | grind | grind (splits := 25) | grind (splits := 80) | ((repeat' split) <;> grind (splits := 80)))
+
+set_option maxHeartbeats 4000000 in
+theorem inv1_jo3 (jo3 : ∀ p t v, s.pc p = .jGotRes t v → (v = 0 ∨ s.retval t = some v)) (jo2 : ∀ p t, s.pc p = .jWoken t → (s.res p = 0 ∨ s.retval t = some (s.res p))) (hc : stepCore s e = some s1) : ∀ p t v, s1.pc p = .jGotRes t v → (v = 0 ∨ s1.retval t = some v) := by
+  step_cases e with hc
+  all_goals (intros; (try simp only [upd_apply, WFJ, DET, NONE, WTJ, untainted] at *); first | grind | grind (splits := 25) | grind (splits := 80) | ((repeat' split) <;> grind (splits := 80)))
+
+set_option maxHeartbeats 4000000 in
+theorem inv1_jo4 (jo4 : ∀ a op t v, s.pc a = .retn op t true v → op ≠ .detach → (v = 0 ∨ s.retval t = some v)) (jo3 : ∀ p t v, s.pc p = .jGotRes t v → (v = 0 ∨ s.retval t = some v)) (jo2 : ∀ p t, s.pc p = .jWoken t → (s.res p = 0 ∨ s.retval t = some (s.res p))) (wv : ∀ a op g v p, s.pc a = .wake op g v p → op ≠ .detach → s.retval g = some v) (hc : stepCore s e = some s1) : ∀ a op t v, s1.pc a = .retn op t true v → op ≠ .detach → (v = 0 ∨ s1.retval t = some v) := by
+  step_cases e with hc
+  all_goals (intros; (try simp only [upd_apply, WFJ, DET, NONE, WTJ, untainted] at *); first | grind | grind (splits := 25) | grind (splits := 80) | ((repeat' split) <;> grind (splits := 80)))
+
+set_option maxHeartbeats 4000000 in
+theorem inv1_jo5 (jo5 : ∀ t v, v ∈ s.succ t → (v = 0 ∨ s.retval t = some v)) (jo4 : ∀ a op t v, s.pc a = .retn op t true v → op ≠ .detach → (v = 0 ∨ s.retval t = some v)) (hc : stepCore s e = some s1) : ∀ t v, v ∈ s1.succ t → (v = 0 ∨ s1.retval t = some v) := by
   step_cases e with hc
   all_goals (intros; (try simp only [upd_apply, WFJ, DET, NONE, WTJ, untainted] at *); first | grind | grind (splits := 25) | grind (splits := 80) | ((repeat' split) <;> grind (splits := 80)))
 
